@@ -363,7 +363,7 @@ fn main() {
         property: "C11",
         classes: CLASSES,
         required: &["output_ok", "output_leap", "accepted", "two_digit_year", "three_digit_year", "no_seconds", "named_zone", "military_zone", "comment", "ws_run", "no_weekday", "wrong_weekday_rejected", "second_60"],
-        rule: "output: every date of years 0..=9999 (3,652,425) x times (incl. a leap second) x whole-minute offsets: the text has the stated form with the correct weekday and reparses to the same second (leap kept) and offset; plus boundary dates x boundary times x boundary offsets; input: the full product of the grammar's options on 10 base dates — weekday {absent, 4 letter cases} x day {1,2 digits} x month case {3} x year {4-digit, 2-digit where the pivot allows, 3-digit (+1900), 5-digit with leading zero} x seconds {present, absent, :60} x zone {17 numeric, 10 names x 3 cases, 25 military letters x 2 cases} x comment {7 shapes} x white-space runs at the five positions where the standard form has a space (quick: one position at a time and all; thorough: all 3^5 combinations); every generated string must be accepted with exactly the denoted wall clock and offset; wrong weekday (6 per date) must be rejected",
+        rule: "output: every date of years 0..=9999 (3,652,425) x times (incl. a leap second) x whole-minute offsets: the text has the stated form with the correct weekday and reparses to the same second (leap kept) and offset; plus boundary dates x boundary times x boundary offsets; input: the full product of the grammar's options on 10 base dates — weekday {absent, 4 letter cases} x day {1,2 digits} x month case {3} x year {4-digit, 2-digit where the pivot allows, 3-digit (+1900), 5-digit with leading zero} x seconds {present, absent, :60} x zone {17 numeric, 10 names x 3 cases, 25 military letters x 2 cases} x comment {7 shapes} x white-space runs at the five positions where the standard form has a space (quick: one position at a time and all; thorough: all 3^5 combinations); long forms (zero-padded year, white-space runs at each position, comments nested / filled / repeated: every length up to 300 and around 2^16); every generated string must be accepted with exactly the denoted wall clock and offset; wrong weekday (6 per date) must be rejected",
         assumptions: &["strings outside the generator (other obsolete syntax, arbitrary text) are left to C15's no-panic sweep", "rejection is only required for a contradicting weekday"],
     };
     let tier = args.tier;
